@@ -368,3 +368,11 @@ func vfNoteRunes(label string, rs []rune) {
 	}
 	vfNotes = append(vfNotes, txt+"]")
 }
+
+// vfNativeNote records a note only when running natively (replay); used to
+// print values whose formatting would fork or be unsupported symbolically.
+func vfNativeNote(f func() string) {
+	vfNotes = append(vfNotes, "native: "+f())
+}
+
+func fmtAny(v interface{}) string { return fmt.Sprintf("%T(%v)", v, v) }
